@@ -341,6 +341,8 @@ type xfJob struct {
 	// Reads: only the read-side APIs (the client's packet size lies above the server's max payload: the refilling
 	// single-chunk and sequential read paths still have to deliver exactly the file's bytes)
 	Reads bool
+	// ShortCap (scripted peer, C12): DATA replies carry at most this many bytes
+	ShortCap int
 }
 
 // xfApplyOpen gives the case its open mode. For the modes that empty the file the drawn size becomes what the name
